@@ -1,7 +1,7 @@
 """C16 Socket addresses round-trip through their kernel representation."""
 import re
 
-from .kernel import (ExprBuilder, Loc, access_path, subexprs, variant_edges, is_local, const_val)
+from .kernel import (specialise_value, ExprBuilder, Loc, access_path, subexprs, variant_edges, is_local, const_val)
 from . import families as fam
 from . import c10
 
@@ -152,11 +152,16 @@ def r1_field_agreement(r, facts):
 
 
 def _start_offset(e):
-    """start offset of a (nested) range index into sun_path: sum of RangeFrom starts"""
+    """start offset of a (nested) slicing of sun_path: sum of the range starts (RangeFrom, Range, RangeInclusive,
+    the second half of split_at[_mut]); the first half of a split and RangeTo start at 0"""
     off = 0
     for x in subexprs(e):
-        if x[0] == 'agg' and x[1].endswith('RangeFrom::RangeFrom') and x[3] and x[3][0][0] == 'const' and x[3][0][1] is not None:
+        if x[0] == 'agg' and (x[1].endswith('RangeFrom::RangeFrom') or x[1].endswith('Range::Range')) and x[3] and x[3][0][0] == 'const' and x[3][0][1] is not None:
             off += x[3][0][1]
+        if x[0] == 'call' and x[1].startswith('std::ops::RangeInclusive') and x[1].endswith('::new') and x[2] and x[2][0][0] == 'const' and x[2][0][1] is not None:
+            off += x[2][0][1]
+        if x[0] == 'proj' and x[2][:1] == ('.1',) and x[1][0] == 'call' and 'split_at' in x[1][1] and x[1][2][1][0] == 'const' and x[1][2][1][1] is not None:
+            off += x[1][2][1][1]
     return off
 
 
@@ -206,6 +211,21 @@ def r1b_unix_layout(r, facts):
             vals = {int(v): tg for v, tg in tt['targets']}
             if 0 in vals and 'abstract' in rdoff and rd.edge_dominates((b, vals[0]), rdoff['abstract'][1]):
                 ok = True
+    if not ok:
+        # `path.first() == Some(&0)`: PartialEq::eq(&first(path), &Some(&0)) with the constant's bytes from the facts
+        for b, blk in enumerate(rd.blocks):
+            tt = blk['term']
+            if blk['cleanup'] or tt['k'] != 'switch':
+                continue
+            e = er.operand(tt['discr'])
+            if e[0] == 'call' and e[1] in ('std::cmp::PartialEq::eq', 'std::cmp::PartialEq::ne') and len(e[2]) == 2:
+                firsts = [a for a in e[2] if any(x[0] == 'call' and x[1].endswith('::first') for x in subexprs(a))]
+                consts = [a for a in e[2] if a[0] == 'const' and len(a) > 5 and a[5] == ((0, (0,)),) and 'Option<&u8>' in (a[3] or '')]
+                if firsts and consts:
+                    vals = {int(v): tg for v, tg in tt['targets']}
+                    tgt = vals.get(1, tt['otherwise']) if e[1].endswith('::eq') else vals.get(0)
+                    if 'abstract' in rdoff and tgt is not None and rd.edge_dominates((b, tgt), rdoff['abstract'][1]):
+                        ok = True
     r.require(ok, 'unix/abstract-test', 'abstract decoding is not guarded by `first byte == 0`', rd.where())
     # the name length handed to the reader excludes the header: length - offset_of(sun_path)
     r.floor(4)
@@ -236,18 +256,20 @@ def r2_ptr_len(r, facts):
                 r.require(szs == ['std::mem::size_of::<libc::sockaddr_in6>'], '%s::%s/len' % (ty, meth), 'receive storage length is %s, expected the larger sockaddr_in6' % szs, f.where())
             elif ty == 'std::net::SocketAddr':
                 r.require(szs == ['std::mem::size_of::<libc::sockaddr_in6>', 'std::mem::size_of::<libc::sockaddr_in>'], '%s::%s/len' % (ty, meth), 'length alternatives are %s, expected sockaddr_in / sockaddr_in6 by family' % szs, f.where())
-                # AF_INET edge selects sockaddr_in
-                ok = False
-                for b, blk in enumerate(f.blocks):
-                    if blk['cleanup'] or blk['term']['k'] != 'switch':
-                        continue
-                    e = eb.operand(blk['term']['discr'])
-                    if e[0] == 'bin' and e[1] in ('Eq', 'Ne') and 'AF_INET' in str(e) and 'sin6_family' in str(e):
-                        vals = {int(v): tg for v, tg in blk['term']['targets']}
-                        t_eq = vals.get(1, blk['term']['otherwise']) if e[1] == 'Eq' else vals.get(0)
-                        for loc, t in f.calls():
-                            if (t.get('callee_full') or '') == 'std::mem::size_of::<libc::sockaddr_in>':
-                                ok = f.edge_dominates((b, t_eq), loc)
+                # decided by value: with the family field fixed to AF_INET only size_of::<sockaddr_in> is reachable,
+                # with AF_INET6 only size_of::<sockaddr_in6> (if/else, match, or any other spelling)
+                def subj(e):
+                    if fam.last_field(e) == 'sin6_family':
+                        return True
+                    return e[0] == 'call' and e[1].endswith('::from') and e[2] and fam.last_field(e[2][0]) == 'sin6_family'
+                ok = True
+                for v, want in ((2, 'std::mem::size_of::<libc::sockaddr_in>'), (10, 'std::mem::size_of::<libc::sockaddr_in6>')):
+                    g, decided = specialise_value(f, subj, v, ExprBuilder(f), bits=32)
+                    reach = g.reachable_blocks(0)
+                    got = sorted({(t.get('callee_full') or '') for loc, t in g.calls() if loc[0] in reach and (t.get('callee_full') or '').startswith('std::mem::size_of::<libc::sockaddr_in')})
+                    r.inst('family=%d -> %s' % (v, got), f.where())
+                    if got != [want] or not decided:
+                        ok = False
                 r.require(ok, '%s::%s/family' % (ty, meth), 'sockaddr_in length is not selected by sin6_family == AF_INET', f.where())
     # storage sizes match the structs (layout facts)
     for ty, st in sizes.items():
